@@ -96,6 +96,11 @@ def instName : Node → String
   | loadAddr .. => "La"
   | _ => "Nop"
 
+/-- `addi x0, x0, 0`, the instruction `nop` stands for -/
+def isNop : Node → Bool
+  | iarith i rd rs1 imm _ => i.val == "Addi" && rd.val == 0 && rs1.val == 0 && imm.val == 0#32
+  | _ => false
+
 def isReturn : Node → Bool
   | jumpLinkR i rd rs1 imm _ => i.val == "Jalr" && rd.val == 0 && rs1.val == 1 && imm.val == 0#32
   | basic i _ => i.val == "Uret"
